@@ -60,6 +60,7 @@ structure Const where
   name : Nat
   ty : Prim
   value : Nat            -- interned literal text
+  rangeOk : Bool := true -- `Primitive::new(type, text).is_ok()` (MinkModel.Literal), set by the protocol layer
   deriving DecidableEq, Repr, Inhabited
 
 structure Method where
